@@ -156,6 +156,9 @@ func (x *c25ctx) evalListing(d *drv, sc *semCase) ([]finding, error) {
 		}
 		x.mu.Lock()
 		x.rej++
+		if x.rej <= 3 {
+			x.c.Logf("schema rejected by the compiler (%s): %s", clip(ip.Error, 200), clip(text[len(text)*3/4:], 160))
+		}
 		x.mu.Unlock()
 		return nil, nil
 	}
